@@ -66,4 +66,6 @@ Report ==
   /\ PrintT(<<"VIOLATIONS", ToJson(TLCGet(1))>>)
   /\ PrintT(<<"WITNESSES", ToJson(TLCGet(3))>>)
   /\ TLCGet(2) - 1 = Len(TraceLog)
+\* the stake unit of "big unit" histories (see BigNat!UnitLimbs): 10^30
+BigUnitLimbs == 10
 =============================================================================
